@@ -675,6 +675,32 @@ func execCase(kind byte, body []byte) *core.Verdict {
 			t = "module m { namespace \"urn:m\"; prefix m;\n" + strings.Repeat("grouping g { container c {", c.Deep/2) + " leaf l { type string; } " + strings.Repeat("}}", c.Deep/2) + "}"
 		case "unions":
 			t = "module m { namespace \"urn:m\"; prefix m; leaf l {\n" + strings.Repeat("type union { ", c.Deep) + " type string; " + strings.Repeat("}", c.Deep) + "}}"
+		case "stray-then-junk": // closing braces nobody opened, then nesting: the nesting limit must still hold
+			t = strings.Repeat("}", c.Deep) + strings.Repeat("a{", c.Deep)
+		case "brace-keywords": // an opening brace where a keyword must stand, then nesting
+			t = strings.Repeat("a { { } ", c.Deep/2) + strings.Repeat("a{", c.Deep)
+		case "typedef-chain", "grouping-chain", "identity-chain": // recursion along references between SIBLINGS
+			var sb strings.Builder
+			sb.WriteString("module m { namespace \"urn:m\"; prefix m;\n")
+			for i := 0; i < c.Deep; i++ {
+				switch c.Shape {
+				case "typedef-chain":
+					fmt.Fprintf(&sb, "typedef t%d { type t%d; }\n", i, i+1)
+				case "grouping-chain":
+					fmt.Fprintf(&sb, "grouping g%d { uses g%d; }\n", i, i+1)
+				case "identity-chain":
+					fmt.Fprintf(&sb, "identity i%d { base i%d; }\n", i, i+1)
+				}
+			}
+			switch c.Shape {
+			case "typedef-chain":
+				fmt.Fprintf(&sb, "typedef t%d { type string; }\nleaf l { type t0; }\n}", c.Deep)
+			case "grouping-chain":
+				fmt.Fprintf(&sb, "grouping g%d { leaf x { type string; } }\ncontainer c { uses g0; }\n}", c.Deep)
+			case "identity-chain":
+				fmt.Fprintf(&sb, "identity i%d;\n}", c.Deep)
+			}
+			t = sb.String()
 		}
 		Exercise(map[string]string{"t.yang": t}, []string{"t.yang"})
 		return v
@@ -901,10 +927,20 @@ func check(r *core.Run) {
 	core.SubmitCollect(r, "hazard", 'B', nB, nil)
 	// nesting depth: texts whose recursion depth grows with the input (harness-chosen extremes of "any byte string")
 	var deep [][]byte
-	for _, sh := range []string{"junk", "junk-closed", "containers", "groupings", "unions"} {
+	for _, sh := range []string{"junk", "junk-closed", "containers", "groupings", "unions", "stray-then-junk", "brace-keywords"} {
 		for _, d := range []int{300, 20000, 3000000} {
 			deep = append(deep, []byte(fmt.Sprintf(`{"deep":%d,"shape":%q}`, d, sh)))
 		}
+	}
+	// recursion along references between sibling statements (the nesting limit does not bound it)
+	for _, d := range []int{300, 9000, 20000, 150000} {
+		deep = append(deep, []byte(fmt.Sprintf(`{"deep":%d,"shape":"typedef-chain"}`, d)))
+	}
+	for _, d := range []int{300, 9000, 12000} { // (FindGrouping scans the siblings: the time is quadratic, which is not the question here)
+		deep = append(deep, []byte(fmt.Sprintf(`{"deep":%d,"shape":"grouping-chain"}`, d)))
+	}
+	for _, d := range []int{300, 2000} { // every identity lists all identities derived from it: the result itself is quadratic
+		deep = append(deep, []byte(fmt.Sprintf(`{"deep":%d,"shape":"identity-chain"}`, d)))
 	}
 	r.SubmitAll("hazard", 'A', deep)
 	// sequences of texts: the histories of Session.tla (loads of good and bad texts, Process, queries in any order),
